@@ -97,6 +97,17 @@ def _check_read(case):
                                                             f"Wav(frames).concatenate() grows a bytearray in place) is bytes")]
     if len(fr) % width:
         return 1, "!", None, [Viol("read-misaligned", f"{tag}: {len(fr)} bytes")]
+    if isinstance(L, (list, tuple)) and repl in (None, "silence"):
+        # the reader the library itself hands out: QueryWav(fn).audiofile, kept by the caller while the QueryWav object is not
+        af3 = audio.QueryWav(fn).audiofile      # the temporary QueryWav is freed here (reference counting)
+        try:
+            st3, fr3, _ = call(audio.readFramesAtTimes, af3, L if kind == "keep" else None, L if kind == "delete" else None, rf)
+        finally:
+            af3.close()
+        if st3 == "exc" or fr3 != fr:
+            return 2, "!", None, [Viol("read-through-querywav-reader", f"{tag}: through the reader taken from a QueryWav that is no longer referenced "
+                                                                       f"(audio.QueryWav(fn).audiofile) the call gives {fr3 if st3 == 'exc' else W.unpack(fr3, width)!r}, "
+                                                                       f"through wave.open(fn) {W.unpack(fr, width)}")]
     out = W.unpack(fr, width)
     # the marked partition of [0, N], in exact sample units
     pos = [(F(a) + off, F(b) - off) for a, b in ivs]
